@@ -4,6 +4,7 @@ import (
 	"context"
 	"fmt"
 	"io"
+	"os"
 	"runtime"
 	"sort"
 	"sync/atomic"
@@ -21,6 +22,20 @@ import (
 type countFS struct {
 	vfs.FS
 	open *atomic.Int64
+	hook *fsHook
+}
+
+// fsHook lets the driver run client calls at a chosen point INSIDE another call (on that call's
+// own goroutine): e.g. writes issued while a Checkpoint is between capturing its view and copying files.
+type fsHook struct {
+	onMkdirAll func(dir string)
+}
+
+func (c countFS) MkdirAll(dir string, perm os.FileMode) error {
+	if c.hook != nil && c.hook.onMkdirAll != nil {
+		c.hook.onMkdirAll(dir)
+	}
+	return c.FS.MkdirAll(dir, perm)
 }
 
 type countFile struct {
@@ -111,7 +126,24 @@ func (r *Runner) execCheckpoint(e Ev) {
 	if spans == nil {
 		spans = [][]int{}
 	}
-	out := Ev{"op": "checkpoint", "flushwal": flushwal, "spans": spans, "ok": false, "state": Ev{"pts": []any{}, "rks": []any{}}}
+	out := Ev{"op": "checkpoint", "flushwal": flushwal, "spans": spans, "ok": false, "state": Ev{"pts": []any{}, "rks": []any{}}, "during": 0}
+	if inner, _ := e["inner"].([]Ev); len(inner) > 0 && r.Hook != nil {
+		// the inner calls run inside Checkpoint, right after it captured its view and released the
+		// DB mutex (its first filesystem step is creating the destination directory)
+		r.Hook.onMkdirAll = func(d string) {
+			if r.FS.PathBase(d) != dir {
+				return
+			}
+			r.Hook.onMkdirAll = nil
+			r.noMaint = true
+			for _, ie := range inner {
+				r.Exec(ie)
+			}
+			r.noMaint = false
+			out["during"] = len(inner)
+		}
+		defer func() { r.Hook.onMkdirAll = nil }()
+	}
 	if err := r.DB.Checkpoint(dir, opts...); err != nil {
 		out["err"] = "checkpoint: " + err.Error()
 		r.T.Emit(out)
